@@ -94,6 +94,12 @@ def pendOp (F : Facts) (p : PSt) (ws : List String) : Option (PSt × String) :=
     | _ => none
   | ["drop", k] => k.toNat?.map fun k => let r := pdrop F p k; (r.1, showSet (r.2.map showEv))
   | ["dropent", k, e] => k.toNat?.map fun k => let r := pdropEntity F p k (parseEnt e); (r.1, showSet (r.2.map showEv))
+  | ["dropentdrop", k, e] => k.toNat?.map fun k =>
+    -- the connection removed while its entity-removed notification is processed: the sequential result (every
+    -- interleaving ends there), the events of both as one multiset
+    let r1 := pdropEntity F p k (parseEnt e)
+    let r2 := pdrop F r1.1 k
+    (r2.1, showSet ((r1.2 ++ r2.2).map showEv))
   | ["pwrite", k, ctr, e, cf, se, sf] => match nats [k, ctr, cf, sf] with
     | some [k, ctr, cf, sf] =>
       let r := pwrite p k ctr (parseEnt e) cf (parseEnt se, sf)
